@@ -35,7 +35,7 @@ THEOREMS = ["JanetModel.Props.C16." + t for t in (
     # session 3: subprocess exit status (bit-level decoder of proc_get_status)
     "exit_status_exact", "exit_status_injective", "stop_and_continue_words", "merged_or_unshifted_arm_is_wrong",
     # session 3: descriptor plumbing of os/spawn / os/execute, life cycle of the process value
-    "child_stdio_exact", "std_source_unmoved_loses_descriptor", "wait_once", "first_wait_suspends", "reaped_status_recorded",
+    "child_stdio_exact", "spawn_child_stdio_exact", "exFresh", "std_source_unmoved_loses_descriptor", "wait_once", "first_wait_suspends", "reaped_status_recorded",
     "close_closes_owned_once",
     # session 3: liveness under an explicit fairness hypothesis
     "op_ends_within_fair_events", "every_op_completes_under_fairness")]
